@@ -7,17 +7,19 @@
    members vanishing between listing and reading, consumer callbacks that raise.  No bound on the
    number of members or steps.
 
-   Two of the three statements of the property are FALSE of the code as it is (the model is a
-   faithful transcription and is compared with the code on every run); for them the file contains
-   the full statement, a machine-checked refutation with a concrete history, and the statement
-   proved under explicit guards on the schedule:
-     G1 guard_fence   when the data watch reports the path deleted (so _send_all_removed runs in
-                      the watch callback, outside the worker), no change batch is queued or in
-                      progress in the worker;
+   Alternation and callback isolation are proved at full strength.  The convergence statement is
+   FALSE of the code as it is (the model is a faithful transcription and is compared with the code
+   on every run): the file contains the full statement, machine-checked refutations with concrete
+   histories (two schedule families, both listed as known findings), and the statement proved under
+   explicit guards on the schedule:
      G2 guard_noflap  a member whose read was skipped because it had vanished is not created again
                       before a children notification has shown its absence;
      G3 guard_path    the watched path is not deleted or created while a data-watch notification
-                      for it is still undelivered. *)
+                      for it is still undelivered.
+   (A third family, F22 - the all-members-left notification raised directly from the data-watch
+   callback overtook batches queued or in progress in the worker - was repaired in /repo by d0a2403:
+   the notification now goes through the worker queue, the model follows, and the former guard G1 is
+   gone; C19_f22_regression replays the former counter-examples.) *)
 From Scales Require Import Model.Base Model.ZkSet Proofs.ZkSetP.
 Local Open Scope Z_scope.
 
@@ -31,7 +33,7 @@ Definition C19_converges_statement : Prop :=
   forall f ls, quiescent (run (init f) ls) ->
   forall n, In n (view (log (run (init f) ls))) <-> In n (tree_members (run (init f) ls)).
 
-(* Proved for every history that respects G1, G2 and G3. *)
+(* Proved for every history that respects G2 and G3. *)
 Theorem C19_converges_partial : forall f ls,
   guarded guard_all (init f) ls = true ->
   quiescent (run (init f) ls) ->
@@ -42,29 +44,7 @@ Proof.
 Qed.
 Print Assumptions C19_converges_partial.
 
-(* The full statement is false.  F22: two members are listed, the worker has read the first one,
-   the path is deleted and both watch callbacks run (_send_all_removed finds no member yet), then the
-   worker finishes its batch and announces member 1: the consumer holds it although nothing exists.
-   The history respects G2 and G3. *)
-Definition witness_g1 : list label :=
-  [CreateParent; Start; Create 1; Create 2; Deliver; WorkerStep (Some 1); WorkerStep (Some 2);
-   DeleteParent; Deliver; Deliver; WorkerStep None; WorkerStep None].
-
-Theorem C19_converges_refuted : ~ C19_converges_statement.
-Proof.
-  intros H. specialize (H [] witness_g1).
-  assert (Q : quiescent (run (init []) witness_g1)) by (repeat split; vm_compute; reflexivity).
-  destruct (H Q 1) as [H1 _]. vm_compute in H1. apply H1. left. reflexivity.
-Qed.
-Print Assumptions C19_converges_refuted.
-
-Example witness_g1_only_breaks_G1 :
-  guarded guard_fence (init []) witness_g1 = false /\
-  guarded guard_noflap (init []) witness_g1 = true /\ guarded guard_path (init []) witness_g1 = true /\
-  view (log (run (init []) witness_g1)) = [1] /\ tree_members (run (init []) witness_g1) = [].
-Proof. vm_compute. repeat split. Qed.
-
-(* Second family (G2): member 0 is listed, vanishes before the worker reads it (skipped), and is
+(* The full statement is false.  First family (G2): member 0 is listed, vanishes before the worker reads it (skipped), and is
    created again before the children callback of the deletion runs; that callback sees the same
    child list as before, so nothing is queued: member 0 exists and is never announced. *)
 Definition witness_g2 : list label :=
@@ -74,14 +54,20 @@ Definition witness_g2 : list label :=
 Theorem C19_converges_refuted_unseen_recreation :
   quiescent (run (init []) witness_g2) /\
   ~ In 0 (view (log (run (init []) witness_g2))) /\ In 0 (tree_members (run (init []) witness_g2)) /\
-  guarded guard_fence (init []) witness_g2 = true /\ guarded guard_path (init []) witness_g2 = true /\
-  guarded guard_noflap (init []) witness_g2 = false.
+  guarded guard_path (init []) witness_g2 = true /\ guarded guard_noflap (init []) witness_g2 = false.
 Proof.
   split; [repeat split; vm_compute; reflexivity|]. vm_compute. repeat split; auto; try (intros []).
 Qed.
 Print Assumptions C19_converges_refuted_unseen_recreation.
 
-(* Third family (G3): the path (with member 0 announced) is deleted and re-created between the two
+Theorem C19_converges_refuted : ~ C19_converges_statement.
+Proof.
+  intros H. destruct C19_converges_refuted_unseen_recreation as (Q & N & I & _).
+  apply N. apply (H [] witness_g2 Q 0). exact I.
+Qed.
+Print Assumptions C19_converges_refuted.
+
+(* Second family (G3): the path (with member 0 announced) is deleted and re-created between the two
    watch callbacks: the children watch sees no node and stops, the data watch then sees a node again
    (a new version, but _watching is still set) and does not start a new children watch.  The server
    set is deaf from then on: member 0 is held for ever, member 1 is never announced. *)
@@ -92,43 +78,39 @@ Definition witness_g3 : list label :=
 Theorem C19_converges_refuted_path_flap :
   quiescent (run (init []) witness_g3) /\
   view (log (run (init []) witness_g3)) = [0] /\ tree_members (run (init []) witness_g3) = [1] /\
-  guarded guard_fence (init []) witness_g3 = true /\ guarded guard_noflap (init []) witness_g3 = true /\
-  guarded guard_path (init []) witness_g3 = false.
+  guarded guard_noflap (init []) witness_g3 = true /\ guarded guard_path (init []) witness_g3 = false.
 Proof. split; [repeat split; vm_compute; reflexivity|]. vm_compute. repeat split. Qed.
 Print Assumptions C19_converges_refuted_path_flap.
 
 (* ---------------------------------------------------------------------------------------------- *)
 (* 2. alternation                                                                                  *)
 
-(* Full statement: for every member the delivered events, oldest first, are join, leave, join, ... *)
-Definition C19_alternation_statement : Prop :=
-  forall f ls n, alternating Join (kinds_of n (rev (log (run (init f) ls)))) = true.
-
-(* Proved for every history that respects G1 (G2 and G3 are not needed). *)
-Theorem C19_alternation_partial : forall f ls n,
-  guarded guard_fence (init f) ls = true ->
+(* Full strength: for every member filter, every history and every member, the delivered events,
+   oldest first, are join, leave, join, ... : no member is reported joining twice or leaving twice
+   without the opposite event in between, and the first event is a join. *)
+Theorem C19_alternation : forall f ls n,
   alternating Join (kinds_of n (rev (log (run (init f) ls)))) = true.
 Proof.
-  intros f ls n G. pose proof (invA_run ls (init f) (invA_init f) G) as IA.
+  intros f ls n. pose proof (invA_run ls (init f) (invA_init f)) as IA.
   exact (proj1 (wf_log_alternating _ (wi_wf _ (ia_wi _ IA)) n)).
 Qed.
-Print Assumptions C19_alternation_partial.
+Print Assumptions C19_alternation.
 
-(* The full statement is false (F22 again): a batch announcing member 0 is still queued when the
-   path is deleted; after re-creation member 0 is listed again against the emptied _nodes, so two
-   batches announce it: join, join. *)
-Definition witness_alt : list label :=
+(* F22 regression: the two histories on which the code failed before d0a2403 (a join batch in
+   progress, resp. still queued, when the path is deleted) now end with the consumer in agreement. *)
+Definition f22_stale : list label :=
+  [CreateParent; Start; Create 1; Create 2; Deliver; WorkerStep (Some 1); WorkerStep (Some 2);
+   DeleteParent; Deliver; Deliver; WorkerStep None; WorkerStep None].
+Definition f22_double : list label :=
   [CreateParent; Start; Create 0; Deliver; DeleteParent; Deliver; Deliver; CreateParent; Create 0; Deliver;
-   WorkerStep (Some 0); WorkerStep (Some 0); WorkerStep None].
-
-Theorem C19_alternation_refuted : ~ C19_alternation_statement.
-Proof. intros H. specialize (H [] witness_alt 0). vm_compute in H. discriminate. Qed.
-Print Assumptions C19_alternation_refuted.
-
-Example witness_alt_only_breaks_G1 :
-  guarded guard_fence (init []) witness_alt = false /\
-  guarded guard_noflap (init []) witness_alt = true /\ guarded guard_path (init []) witness_alt = true /\
-  kinds_of 0 (rev (log (run (init []) witness_alt))) = [Join; Join].
+   WorkerStep (Some 0); WorkerStep (Some 0); WorkerStep None; WorkerStep None].
+Example C19_f22_regression :
+  quiescentb (run (init []) f22_stale) = true /\
+  kinds_of 1 (rev (log (run (init []) f22_stale))) = [Join; Leave] /\ view (log (run (init []) f22_stale)) = [] /\
+  quiescentb (run (init []) f22_double) = true /\
+  kinds_of 0 (rev (log (run (init []) f22_double))) = [Join; Leave; Join] /\
+  view (log (run (init []) f22_double)) = [0] /\ tree_members (run (init []) f22_double) = [0] /\
+  guarded guard_all (init []) f22_stale = true /\ guarded guard_all (init []) f22_double = true.
 Proof. vm_compute. repeat split. Qed.
 
 (* ---------------------------------------------------------------------------------------------- *)
